@@ -139,18 +139,10 @@ def judge(ctx, status: str) -> list[dict]:
             if len(entries) != total:
                 v("R3", f"HAR file holds {len(entries)} entries but {total} exchanges were delivered", what="har_not_exactly_once",
                   missing=len(entries) < total, extra=len(entries) > total)
-            elif not sanitize:
-                exp = Counter()
-                for cid in expected_ids:
-                    r = wire_by_id.get(cid)
-                    if r is not None:
-                        st = r.response.status if (r.outcome == "response" and r.response is not None) else 0
-                        exp[(r.request.method, r.request.url, st)] += 1
-                if sum(exp.values()) == total:
-                    got = Counter((e["request"]["method"], e["request"]["url"], e["response"]["status"]) for e in entries)
-                    if got != exp:
-                        d = list((exp - got).items())[:1] or list((got - exp).items())[:1]
-                        v("R4", f"HAR entries do not match the traffic, e.g. {d}", what="har_unfaithful", field="method/url/status")
+            else:
+                problem = _compare_har(entries, expected_ids, wire_by_id, sanitize, preserve)
+                if problem is not None:
+                    v("R4", f"HAR entries do not match the traffic: {problem[1]}", what="har_unfaithful", field=problem[0])
     # ------------------------------------------------------------------------------------ JUnit
     if "junit" in formats and not aborted:
         path = os.path.join(report_dir, "junit.xml")
@@ -284,3 +276,78 @@ def _compare_vcr_entry(e: dict, r, rec, sanitize: bool, preserve: bool) -> tuple
         if e.get("status") != exp_status:
             return "status", f"status {e.get('status')!r} != {exp_status!r}"
     return None
+
+
+def _compare_har(entries: list, expected_ids, wire_by_id: dict, sanitize: bool, preserve: bool) -> tuple[str, str] | None:
+    """HAR entries carry no ids: match them to the delivered exchanges group-wise by (method, url, status)."""
+
+    def text(b: bytes) -> str | None:
+        if preserve:
+            return base64.b64encode(b).decode()
+        return b.decode("utf-8", "replace")
+
+    exp: dict[tuple, list] = {}
+    for cid, n in expected_ids.items():
+        r = wire_by_id.get(cid)
+        if r is None:
+            return None  # cannot attribute: stay silent rather than guess
+        delivered = r.outcome == "response" and r.response is not None
+        st = r.response.status if delivered else 0
+        item = {
+            "req_body": text(r.request.body) if r.request.body else None,
+            "resp_body": text(r.response.body) if delivered and r.response.body else None,
+            "req_headers": r.request.headers,
+            "resp_headers": r.response.headers if delivered else [],
+            "reason": (r.response.reason if r.response.reason is not None else None) if delivered else "",
+            "valid_utf8": _is_utf8(r.response.body) if delivered else True,
+        }
+        for _ in range(n):
+            exp.setdefault((r.request.method.upper(), r.request.url, st), []).append(item)
+    got: dict[tuple, list] = {}
+    for e in entries:
+        url = e["request"]["url"]
+        got.setdefault((e["request"]["method"], url, e["response"]["status"]), []).append(e)
+    if sanitize:
+        # sanitised URLs cannot be matched back reliably: compare counts per (method, status) only
+        ce = Counter((k[0], k[2]) for k, vals in exp.items() for _ in vals)
+        cg = Counter((k[0], k[2]) for k, vals in got.items() for _ in vals)
+        if ce != cg:
+            return "method/status", f"per (method, status) counts differ: {dict((ce - cg) + (cg - ce))}"
+        return None
+    if {k: len(x) for k, x in exp.items()} != {k: len(x) for k, x in got.items()}:
+        only_e = [k for k in exp if len(exp[k]) != len(got.get(k, []))][:1]
+        only_g = [k for k in got if len(got[k]) != len(exp.get(k, []))][:1]
+        return "method/url/status", f"expected {only_e} vs file {only_g}"
+    for key, items in exp.items():
+        hs = got[key]
+        eb = Counter(i["req_body"] for i in items)
+        gb = Counter((h["request"].get("postData") or {}).get("text") for h in hs)
+        if eb != gb:
+            return "request.body", f"{key[0]} {key[1]}: request bodies differ ({list((eb - gb))[:1]} vs {list((gb - eb))[:1]})"
+        if all(i["valid_utf8"] for i in items) or preserve:
+            er = Counter(i["resp_body"] for i in items)
+            gr = Counter(((h["response"].get("content") or {}).get("text") or None) for h in hs)
+            if er != gr:
+                return "response.body", f"{key[0]} {key[1]} -> {key[2]}: response bodies differ"
+        if len(items) == 1:
+            i, h = items[0], hs[0]
+            ghead = {x["name"].lower(): x["value"] for x in h["request"].get("headers", [])}
+            for k, val in i["req_headers"]:
+                if ghead.get(k.lower()) != val:
+                    return "request.headers", f"{key[0]} {key[1]}: request header {k} is {ghead.get(k.lower())!r}, sent {val!r}"
+            if key[2]:
+                rhead = {x["name"].lower(): x["value"] for x in h["response"].get("headers", [])}
+                for k, val in i["resp_headers"]:
+                    if k.lower() not in rhead:
+                        return "response.headers", f"{key[0]} {key[1]}: response header {k} missing"
+                if i["reason"] is not None and h["response"].get("statusText") != i["reason"]:
+                    return "response.statusText", f"{key[0]} {key[1]}: statusText {h['response'].get('statusText')!r} != {i['reason']!r}"
+    return None
+
+
+def _is_utf8(b: bytes) -> bool:
+    try:
+        b.decode("utf-8")
+        return True
+    except UnicodeDecodeError:
+        return False
